@@ -276,6 +276,10 @@ type checker struct {
 }
 
 func (c *checker) violate(class string, k kase, exp, got string) {
+	if c.r.Seen(class) >= 3 || c.r.Seen(class+":only-after-earlier-evaluations") >= 3 {
+		c.r.CountOnly(class)
+		return
+	}
 	// re-confirm in a fresh runtime, five times
 	rep := 0
 	for i := 0; i < 5; i++ {
